@@ -195,4 +195,18 @@ example : demo.tryGetByName ["g", "x"] 1 ["x"] = some 1 := by decide
 example : demo.tryGetByName [] 0 ["g", "x"] = some 1 := by decide
 example : demo.tryGetByName [] 1 ["x"] = none := by decide
 
+/-- **a dotted path descends from the declaration its first component denotes, also when that component is
+    named like a built-in** (`pc.x`, `incbin.x`; finding F45, repaired: the built-in test looked at the first
+    component whatever the length of the path) -/
+theorem dotted_path_is_never_a_builtin (st : Static) (defs : Defs) (ctx : RCtx) (n m : String) (rest : List String) :
+    evalVariable st defs ctx 0 (n :: m :: rest) =
+      match st.decls.symbols.getByName ctx.symCtx 0 (n :: m :: rest) with
+      | .error e => .error e
+      | .ok r =>
+        match (defs.sym r).value with
+        | .unknown => if !ctx.canGuess then .error s!"unresolved symbol `{displayName 0 (n :: m :: rest)}`" else .ok (defs.sym r).value
+        | _ => .ok (defs.sym r).value := by
+  unfold evalVariable
+  rfl
+
 end Casm.C15
